@@ -86,6 +86,21 @@ def main():
             obs["combos"].append(c)
         obs["ppl"] = m.perplexity(s).hex()
         obs["contains"] = [1 if (w in m) else 0 for w in ref_split(s)]
+        # the same sentence handed over as str (the module encodes it as UTF-8): every entry point again
+        try:
+            text = s.decode("utf-8")
+            if text.encode("utf-8") != s:
+                text = None
+        except UnicodeDecodeError:
+            text = None
+        if text is not None:
+            st = {"combos": []}
+            for bos, eos in ((True, True), (True, False), (False, True), (False, False)):
+                st["combos"].append({"score": bits(m.score(text, bos=bos, eos=eos)),
+                                     "fs": [[bits(p), n, 1 if oov else 0] for p, n, oov in m.full_scores(text, bos=bos, eos=eos)]})
+            st["ppl"] = m.perplexity(text).hex()
+            st["contains"] = [1 if (w.decode("utf-8") in m) else 0 for w in ref_split(s)]
+            obs["str"] = st
         print(json.dumps(obs))
         sys.stdout.flush()
 
